@@ -13,6 +13,9 @@
 (*   "concurrent"  nothing - they run side by side (the code as found)     *)
 (*   "serialized"  it waits for the lock and then runs (the repaired code) *)
 (*   "trylock"     it gives up at once (a tempting but wrong repair)       *)
+(* Edits happen in the main package directory or in the directory of an   *)
+(* imported package / previous version; the watcher hears only of edits in *)
+(* directories it watches, and it starts with the main directory only.     *)
 (* Converges: once edits have stopped and everything has drained, the      *)
 (* output files hold the generation of the final contents (if valid).      *)
 (* hist records the visible choices of a behaviour; the harness replays    *)
@@ -21,13 +24,18 @@
 (***************************************************************************)
 EXTENDS Naturals, Sequences, FiniteSets, TLC, Json
 
-CONSTANTS MaxEdits, MaxRegens, Invalid, Mode, Kinds
+CONSTANTS MaxEdits, MaxRegens, Invalid, Mode, Kinds,
+          Dirs,        \* directories of the package closure: "main" and the imported / previous-version packages
+          WatchDirs    \* "onsuccess": referenced directories are watched only after a generation succeeded (the code as found)
+                       \* "always": after every regeneration that could load the packages
+                       \* "rearm": as "always", and a regeneration that starts watching a directory arms the timer once more,
+                       \*          because that directory may have changed after it was read (the repaired code)
 Files == {1, 2}
 Versions == 0..MaxEdits
 None == 99
 
-VARIABLES content, edits, timer, spawned, st, ver, wrote, lock, out, hist
-vars == <<content, edits, timer, spawned, st, ver, wrote, lock, out, hist>>
+VARIABLES content, edits, timer, spawned, st, ver, wrote, lock, out, hist, watched
+vars == <<content, edits, timer, spawned, st, ver, wrote, lock, out, hist, watched>>
 Regens == 1..MaxRegens
 
 Init == /\ content = 0 /\ edits = 0 /\ timer = FALSE
@@ -38,49 +46,54 @@ Init == /\ content = 0 /\ edits = 0 /\ timer = FALSE
         /\ lock = 0
         /\ out = [f \in Files |-> None]
         /\ hist = <<>>
+        /\ watched = {"main"}
 
-Edit(k) == /\ edits < MaxEdits
-           /\ content' = content + 1 /\ edits' = edits + 1 /\ timer' = TRUE
-           /\ hist' = Append(hist, [a |-> "edit", kind |-> k, valid |-> (content + 1) \notin Invalid])
-           /\ UNCHANGED <<spawned, st, ver, wrote, lock, out>>
+\* an edit in directory d changes the package; the watcher only hears of it if d is being watched
+Edit(k, d) == /\ edits < MaxEdits
+              /\ content' = content + 1 /\ edits' = edits + 1 /\ timer' = (timer \/ d \in watched)
+              /\ hist' = Append(hist, [a |-> "edit", kind |-> k, dir |-> d, valid |-> (content + 1) \notin Invalid])
+              /\ UNCHANGED <<spawned, st, ver, wrote, lock, out, watched>>
 
 \* a file-system event that changes nothing (attribute change, the second of the two events of one save, an editor's temporary file)
 \* (bounded so that the regenerations still owed to the remaining edits always fit into MaxRegens)
 Touch == /\ ~timer /\ spawned + 1 + (MaxEdits - edits) <= MaxRegens - 1 /\ timer' = TRUE
-         /\ UNCHANGED <<content, edits, spawned, st, ver, wrote, lock, out, hist>>
+         /\ UNCHANGED <<content, edits, spawned, st, ver, wrote, lock, out, hist, watched>>
 
 TimerFire == /\ timer /\ spawned < MaxRegens
              /\ timer' = FALSE /\ spawned' = spawned + 1
              /\ st' = [st EXCEPT ![spawned + 1] = "spawned"]
-             /\ UNCHANGED <<content, edits, ver, wrote, lock, out, hist>>
+             /\ UNCHANGED <<content, edits, ver, wrote, lock, out, hist, watched>>
 
 Acquire(r) == /\ st[r] = "spawned"
               /\ CASE Mode = "concurrent" -> st' = [st EXCEPT ![r] = "running"] /\ UNCHANGED lock
                    [] Mode = "serialized" -> lock = 0 /\ lock' = r /\ st' = [st EXCEPT ![r] = "running"]
                    [] Mode = "trylock" -> IF lock = 0 THEN lock' = r /\ st' = [st EXCEPT ![r] = "running"]
                                           ELSE st' = [st EXCEPT ![r] = "done"] /\ UNCHANGED lock
-              /\ UNCHANGED <<content, edits, timer, spawned, ver, wrote, out, hist>>
+              /\ UNCHANGED <<content, edits, timer, spawned, ver, wrote, out, hist, watched>>
 
 Release(r) == IF lock = r THEN lock' = 0 ELSE UNCHANGED lock
 HeldBefore(r) == Cardinality({ q \in Regens : q < r /\ st[q] = "read" /\ wrote[q] = 0 })
 
 Read(r) == /\ st[r] = "running"
            /\ IF content \in Invalid
-                THEN st' = [st EXCEPT ![r] = "done"] /\ Release(r) /\ UNCHANGED ver      \* reported, nothing written, watcher goes on
-                ELSE st' = [st EXCEPT ![r] = "read"] /\ ver' = [ver EXCEPT ![r] = content] /\ UNCHANGED lock
-           /\ UNCHANGED <<content, edits, timer, spawned, wrote, out, hist>>
+                THEN /\ st' = [st EXCEPT ![r] = "done"] /\ Release(r) /\ UNCHANGED ver     \* reported, nothing written, watcher goes on
+                     /\ watched' = IF WatchDirs \in {"always", "rearm"} THEN Dirs ELSE watched
+                     /\ timer' = (timer \/ (WatchDirs = "rearm" /\ watched # Dirs))
+                ELSE st' = [st EXCEPT ![r] = "read"] /\ ver' = [ver EXCEPT ![r] = content] /\ UNCHANGED <<lock, watched, timer>>
+           /\ UNCHANGED <<content, edits, spawned, wrote, out, hist>>
 
 Write(r) == /\ st[r] = "read" /\ wrote[r] < Cardinality(Files)
             /\ out' = [out EXCEPT ![wrote[r] + 1] = ver[r]]
             /\ wrote' = [wrote EXCEPT ![r] = wrote[r] + 1]
             /\ hist' = IF wrote[r] = 0 THEN Append(hist, [a |-> "release", rank |-> HeldBefore(r)]) ELSE hist
-            /\ UNCHANGED <<content, edits, timer, spawned, st, ver, lock>>
+            /\ UNCHANGED <<content, edits, timer, spawned, st, ver, lock, watched>>
 
 End(r) == /\ st[r] = "read" /\ wrote[r] = Cardinality(Files)
-          /\ st' = [st EXCEPT ![r] = "done"] /\ Release(r)
-          /\ UNCHANGED <<content, edits, timer, spawned, ver, wrote, out, hist>>
+          /\ st' = [st EXCEPT ![r] = "done"] /\ Release(r) /\ watched' = Dirs
+          /\ timer' = (timer \/ (WatchDirs = "rearm" /\ watched # Dirs))
+          /\ UNCHANGED <<content, edits, spawned, ver, wrote, out, hist>>
 
-Next == \/ \E k \in Kinds : Edit(k)
+Next == \/ \E k \in Kinds, d \in Dirs : Edit(k, d)
         \/ TimerFire \/ Touch
         \/ \E r \in Regens : Acquire(r) \/ Read(r) \/ Write(r) \/ End(r)
 
@@ -99,5 +112,5 @@ EventuallyDrained == <>[]Drained
 
 \* schedules for the harness: the visible choices of every complete behaviour
 ExportSchedules == Quiescent => PrintT(<<"CASE", ToJson([hist |-> hist, converged |-> (content \in Invalid \/ \A f \in Files : out[f] = content)])>>)
-View == <<content, edits, timer, spawned, st, ver, wrote, lock, out>>
+View == <<content, edits, timer, spawned, st, ver, wrote, lock, out, watched>>
 ==============================================================================
